@@ -10,10 +10,10 @@ pub fn prop() -> Prop {
     Prop {
         id: "C10",
         level: "model_checking",
-        rule: "all streams of <=3 (thorough <=4) values over a 49-text universe (numbers one unit in the last place apart; (objects with the same members in another order, which `=` calls equal; strings spelled like literals, keys that are prefixes of one another, the empty key, empty collections inside a collection; (incl. whole numbers >= 2^32 spelled with and without exponent / fraction, and two objects whose printed forms coincide under the \\u+5-hex-digit spelling of non-BMP characters) (incl. unequal nested objects that differ only in where a trailing member sits: {\"a\":{},\"b\":1} / {\"a\":{\"b\":1}}) with equal-by-value spellings (0 0.0 0e0, [0,\"x\"] [0.0,\"x\"], 1 1.0 1e0 10e-1, \"a\" \"\\u0061\", 1.5 15e-1, 100 1e2, [1,{\"a\":1}] [1.0,{\"a\":1e0}], {\"a\":1} {\"a\":1.0}) and near misses (\"1\", [1], [1.5], null, true), and <=5 (thorough <=7) over a 10-text core; the same through one and two selections (also two selections sharing a name) over all streams of <=4 (thorough <=6) records where the selected member is present, null or absent; growth families of 3..1000 distinct values each arriving in three spellings; rows whose input repeats while the selected values differ and the reverse (8 pipelines with --split-by and selections reading ^, over all streams of <=3 (thorough 4) records out of 6 whose lists share items); non-trivial = the stream holds a duplicate under `=` in a different spelling, or an absent-versus-null pair; distinct by construction; rows whose selected values are computed (round, floor, ceil, abs, arithmetic that returns to the same value, parse of stringify, containers built around them: 14 selection sets) over all streams of 2..3 (thorough 4) values out of 16 numbers and near-numbers",
+        rule: "all streams of <=3 (thorough <=4) values over a 49-text universe (numbers one unit in the last place apart; (objects with the same members in another order, which `=` calls equal; strings spelled like literals, keys that are prefixes of one another, the empty key, empty collections inside a collection; (incl. whole numbers >= 2^32 spelled with and without exponent / fraction, and two objects whose printed forms coincide under the \\u+5-hex-digit spelling of non-BMP characters) (incl. unequal nested objects that differ only in where a trailing member sits: {\"a\":{},\"b\":1} / {\"a\":{\"b\":1}}) with equal-by-value spellings (0 0.0 0e0, [0,\"x\"] [0.0,\"x\"], 1 1.0 1e0 10e-1, \"a\" \"\\u0061\", 1.5 15e-1, 100 1e2, [1,{\"a\":1}] [1.0,{\"a\":1e0}], {\"a\":1} {\"a\":1.0}) and near misses (\"1\", [1], [1.5], null, true), and <=5 (thorough <=7) over a 10-text core; the same through one and two selections (also two selections sharing a name) over all streams of <=4 (thorough <=6) records where the selected member is present, null or absent; growth families of 3..1000 distinct values each arriving in three spellings; rows whose input repeats while the selected values differ and the reverse (8 pipelines with --split-by and selections reading ^, over all streams of <=3 (thorough 4) records out of 6 whose lists share items); rows of two and three string columns whose texts concatenate alike under each of 14 joiners (none, U+001F, NUL, comma, bar, blank, tab, line feed, ..) although the columns differ; non-trivial = the stream holds a duplicate under `=` in a different spelling, or an absent-versus-null pair; distinct by construction; rows whose selected values are computed (round, floor, ceil, abs, arithmetic that returns to the same value, parse of stringify, containers built around them: 14 selection sets) over all streams of 2..3 (thorough 4) values out of 16 numbers and near-numbers",
         explanation: "the `=` table of the implementation is obtained exhaustively for the universe (one run per ordered pair) and checked against reference equality, symmetry and reflexivity; the output with --unique must be the output without it minus every row equal (under that table, selection by selection, absent only equal to absent) to an earlier row",
         assumptions: COMMON_ASSUMPTIONS.to_vec(),
-        guards: vec!["equal-inputs-with-different-selected-values", "computed-duplicate-removed", "command-line-respelled", "duplicate-in-other-spelling-removed", "near-miss-kept", "absent-vs-null-kept", "nested-duplicate-removed", "table-growth", "eq-table-complete"],
+        guards: vec!["columns-that-concatenate-alike", "equal-inputs-with-different-selected-values", "computed-duplicate-removed", "command-line-respelled", "duplicate-in-other-spelling-removed", "near-miss-kept", "absent-vs-null-kept", "nested-duplicate-removed", "table-growth", "eq-table-complete"],
         budget_s: (100, 2400),
         single_worker: false,
         run,
@@ -331,6 +331,7 @@ fn run(ctx: &mut Ctx) {
     ctx.level_done("growth-families");
     computed_selections(ctx);
     repeated_inputs(ctx);
+    columns_that_concatenate_alike(ctx);
 }
 
 /// Rows whose selected values are COMPUTED (so that equal values reach the duplicate filter through different
@@ -455,4 +456,67 @@ fn repeated_inputs(ctx: &mut Ctx) {
         }
     }
     ctx.level_done("rows-whose-input-repeats-with-other-selected-values(8-pipelines-with-split-and-^)");
+}
+
+/// Rows of several string columns whose texts, put one after the other, read the same although the columns differ:
+/// ("x<j>y","z") and ("x","y<j>z") for every joiner j that an implementation might put between columns, and the rows
+/// ("ab",""), ("a","b"), ("","ab") that collide under no joiner at all. --unique compares column by column.
+fn columns_that_concatenate_alike(ctx: &mut Ctx) {
+    let joiners = ["", "\u{1f}", "\u{0}", "\u{1e}", ",", "|", " ", "\t", "\n", "/", ":", "\u{ffff}", "\", \"", "\u{e9}"];
+    let maxlen = ctx.tier.pick(3usize, 4);
+    for (ji, j) in joiners.iter().enumerate() {
+        if !ctx.mine() {
+            continue;
+        }
+        let rows: Vec<Vec<String>> = vec![
+            vec![format!("x{j}y"), "z".into(), "w".into()],
+            vec!["x".into(), format!("y{j}z"), "w".into()],
+            vec!["x".into(), "y".into(), format!("z{j}w")],
+            vec![format!("x{j}y{j}z"), "w".into(), String::new()],
+            vec!["x".into(), "y".into(), "z".into()],
+        ];
+        let recs: Vec<String> = rows.iter().map(|r| json::to_text(&V::Obj(vec![("a".into(), V::s(&r[0])), ("b".into(), V::s(&r[1])), ("c".into(), V::s(&r[2]))]))).collect();
+        let mut seqs: Vec<Vec<usize>> = Vec::new();
+        crate::explore::seqs_upto(recs.len(), maxlen, |s| seqs.push(s.to_vec()));
+        for sel in [vec!["--select=.a=a", "--select=.b=b"], vec!["--select=.a=a", "--select=.b=b", "--select=.c=c"], vec!["--select=.b", "--select=.c"]] {
+            for s in &seqs {
+                if s.len() < 2 {
+                    continue;
+                }
+                let input: String = s.iter().map(|i| format!("{}\n", recs[*i])).collect();
+                let plain_args: Vec<String> = sel.iter().map(|e| e.to_string()).collect();
+                let mut uniq_args = plain_args.clone();
+                uniq_args.push("--unique".into());
+                let plain_case = Case::owned(plain_args, input.clone().into_bytes());
+                let uniq_case = Case::owned(uniq_args, input.into_bytes());
+                let plain = ctx.run(&plain_case);
+                let uniq = ctx.run(&uniq_case);
+                ctx.case_done();
+                ctx.trace_validated();
+                ctx.guard("columns-that-concatenate-alike");
+                let sig = format!("columns that concatenate alike, joiner #{ji} {:?}, {} columns", j, sel.len());
+                let (Ok(prow), Ok(urow)) = (json::parse_rows(&plain.stdout, b"\n"), json::parse_rows(&uniq.stdout, b"\n")) else {
+                    ctx.violation("stdout-not-rows", &sig, &[uniq_case.clone()], "rows".into(), uniq.brief());
+                    continue;
+                };
+                let mut expected: Vec<V> = Vec::new();
+                for r in &prow {
+                    if !expected.iter().any(|e| eval::veq(e, r)) {
+                        expected.push(r.clone());
+                    }
+                }
+                if expected.len() == prow.len() {
+                    ctx.nontrivial();
+                }
+                ctx.transition(&("concat-alike", ji, sel.len(), expected.len(), prow.len()));
+                if !plain.res.is_ok() || !uniq.res.is_ok() || prow.len() != s.len() || urow != expected {
+                    ctx.outcome("violation");
+                    ctx.violation("unique-output-is-not-the-plain-output-minus-later-duplicates", &format!("{sig} {}", super::pipe::diff_kind(&expected, &urow)), &[uniq_case.clone(), plain_case.clone()], super::pipe::texts(&expected), super::pipe::texts(&urow));
+                } else {
+                    ctx.outcome(if expected.len() < prow.len() { "ok-removed" } else { "ok-nothing-to-remove" });
+                }
+            }
+        }
+    }
+    ctx.level_done("string-columns-that-concatenate-alike(14-joiners-x-2..3-columns)");
 }
